@@ -64,8 +64,10 @@ def mkreg(rnd):
     return csr.Register(rfields(rnd), access="rw")
 
 
-def make(kind, rnd):
-    """returns (component, extra submodules, description, memory_map or None)"""
+def make(kind, rnd, hook=None):
+    """returns (component, extra submodules, description, memory_map or None); `hook(component)` is
+    called before every add() of a container (decoders, arbiter)"""
+    hook = hook or (lambda c: None)
     if kind == "Multiplexer":
         dw = rnd.choice([1, 2, 7, 8, 16, 32]); aw = rnd.randint(1, 6); al = rnd.choice([0, 0, 1, 2, 3])
         mm = MemoryMap(addr_width=aw, data_width=dw, alignment=al); regs = []
@@ -118,6 +120,7 @@ def make(kind, rnd):
         for i in range(rnd.randint(0, 4)):
             saw = rnd.randint(1, aw); s = csr.Interface(addr_width=saw, data_width=dw)
             s.memory_map = MemoryMap(addr_width=saw, data_width=dw)
+            hook(d)
             try:
                 d.add(s, name=None if rnd.random() < .5 else f"s{i}",
                       addr=None if rnd.random() < .6 else (rnd.randrange(1 << aw) >> saw) << saw)
@@ -141,6 +144,7 @@ def make(kind, rnd):
             s = wishbone.Interface(addr_width=saw, data_width=sdw, granularity=sg, features=sf)
             maw = max(1, saw + int(math.log2(sdw // sg)))
             s.memory_map = MemoryMap(addr_width=maw, data_width=sg, alignment=rnd.choice([0, 1, 2, 3]))
+            hook(d)
             try:
                 r = d.add(s, sparse=sparse, addr=None if rnd.random() < .6 else (rnd.randrange(1 << (aw + gb)) >> maw) << maw)
                 descr.append((saw, sdw, sg, sparse, r, sorted(sf)))
@@ -154,6 +158,7 @@ def make(kind, rnd):
         n = rnd.randint(1, 5)
         for i in range(n):
             sf = set(f for f in F if rnd.random() < .5) | (feats & {"err", "rty"})
+            hook(a)
             a.add(wishbone.Interface(addr_width=aw, data_width=dw,
                                      granularity=rnd.choice([x for x in (8, 16, 32, 64) if g <= x <= dw]), features=sf))
         return a, [], ("arb", aw, dw, g, sorted(feats), n), None
@@ -295,6 +300,31 @@ def run_case(case):
         after = fmt_map(mm)
         if before != after:
             out["fails"].append(("C19", f"{kind} {descr}: elaboration changed the memory map", "map-changed"))
+        if kind in ("csr.Decoder", "wb.Decoder", "Arbiter"):
+            # an elaboration in the middle of construction (before later add() calls) must not change the
+            # hardware that the finished component elaborates to: compare with an identical twin that
+            # was elaborated early
+            hr = lib.rng_for(case["seed"], case["idx"], 1929)
+            early = [0]
+
+            def hook(c_):
+                if hr.random() < .4:
+                    convert(c_)
+                    early[0] += 1
+            try:
+                cB, extraB, _, _ = make(kind, lib.rng_for(case["seed"], case["idx"], 1919), hook)
+                if early[0] and convert(cB, extraB) != texts[0]:
+                    out["fails"].append(("C19", f"{kind} {descr}: an elaboration before later add() calls changed the hardware the "
+                                                f"finished component elaborates to", "early-elaboration-changes-hardware"))
+                out["early_elaborations"] = early[0]
+            except Timeout:
+                raise
+            except BaseException as e:
+                if early[0]:
+                    out["fails"].append(("C19", f"{kind} {descr}: after an elaboration in the middle of construction, construction or "
+                                                f"elaboration fails with {type(e).__name__}: {str(e)[:100]}", f"early-elaboration:{type(e).__name__}"))
+        if before != after:
+            pass
         elif mm is not None:
             # metadata that queries do not show (is the map still open?): an identical twin that was never
             # elaborated must answer one further `add_resource` exactly as the elaborated instance does
